@@ -119,6 +119,8 @@ pub enum Op {
     FaultyRollback,
     /// C18: start a merge, then `wait_merging_threads()` while other threads try to create a writer
     WaitMergesRace,
+    /// C18: drop the writer with a backlog of uncommitted documents while other threads try to create a writer
+    DropRace,
 }
 
 #[derive(Clone, Debug, PartialEq, Serialize, Deserialize)]
